@@ -125,6 +125,7 @@ class RndEval(poly.PathEval):
         super().__init__(ff, cell_var, None, 4)
         self.inputs = inputs
         self.sig = []
+        self.calls = []
 
     def dom_const(self, c):
         return NE(float(c), 0.0)
@@ -156,6 +157,7 @@ class RndEval(poly.PathEval):
         base = name.split(".f64")[0].split(".f32")[0]
         base = base[5:] if base.startswith("llvm.") else base
         base = base[:-1] if base in ("sinf", "cosf", "sqrtf") else base
+        self.calls.append(base)
         return _fn(base, args)
 
     def dom_indeterminate(self, why):
@@ -223,9 +225,9 @@ def grid(ths, max_angle=None):
     return sorted(p for p in pts if 0 < p < math.pi and (max_angle is None or p <= max_angle))
 
 
-def evaluate(ff, g, theta, hess, shapes):
+def evaluate(ff, g, theta, hess, shapes, variant=0):
     """(comparison signature, output cells) of the witness at rotation angle theta"""
-    a0 = ray(g, theta)
+    a0 = ray(g, theta, variant)
     inputs = {"a%d" % i: a0[i] for i in range(g.dof)}
     if hess:
         inputs.update({"b%d" % i: 0.0 for i in range(g.dof)})
@@ -254,18 +256,18 @@ def evaluate(ff, g, theta, hess, shapes):
     return tuple(ev.sig), cells
 
 
-def continuity(rep, rule, fname, ff, g, nm, hess, shapes, ths, tol, max_angle, near_pi):
+def continuity(rep, rule, fname, ff, g, nm, hess, shapes, ths, tol, max_angle, near_pi, variant=0, dense=48):
     """RND.C: wherever the sequence of comparison outcomes changes along the ray (a small-angle switch, a guard towards the half turn, any case split), the
     outputs on the two sides of the flip -- located by bisection to adjacent angles -- agree within 2x the tolerance plus the two rounding bounds"""
     NE.U = 2.0 ** -53
     pts = set(grid(ths, max_angle))
     top = max_angle or math.pi
-    pts.update(top * (i + 0.5) / 48 for i in range(48))
+    pts.update(top * (i + 0.5) / dense for i in range(dense))
     pts = sorted(pts)
     prev = None
     flips = []
     for th in pts:
-        sig, cells = evaluate(ff, g, th, hess, shapes)
+        sig, cells = evaluate(ff, g, th, hess, shapes, variant)
         if cells is None:
             raise poly.Unsupported("output cell not written")
         if prev is not None and prev[1] != sig:
@@ -275,7 +277,7 @@ def continuity(rep, rule, fname, ff, g, nm, hess, shapes, ths, tol, max_angle, n
                 mid = 0.5 * (lo + hi)
                 if mid <= lo or mid >= hi:
                     break
-                sm, cm = evaluate(ff, g, mid, hess, shapes)
+                sm, cm = evaluate(ff, g, mid, hess, shapes, variant)
                 if cm is None:
                     raise poly.Unsupported("output cell not written")
                 if sm == slo:
@@ -309,6 +311,10 @@ def run(rep, tier, prop, names, tol, float_tol=None, rule="RND", max_angle=None,
     max_angle = max_angle or {}
     near_pi = near_pi or {}
     gs = [g for g in groups.catalogue("quick")]
+    variants, dense = [0], 48
+    if tier == "thorough":
+        gs += [g for g in groups.catalogue("thorough") if g.key in ("SE_1_3d", "B_SE3d_SO2d_V3d_C1d", "B_nested")]
+        variants, dense = [0, 1, 2], 192
     rep.rule(rule, "first-order rounding bound of the compiled formulas along rays (grid of angles incl. both sides of every switch and pi - 10^-k) stays below 100x the "
              "tolerance %g%s relative to the largest entry of each output" % (tol, (" (float: %g)" % float_tol) if float_tol else ""), minimum=len(names) * 4)
     W = raychk.witnesses(gs, names)
@@ -323,15 +329,23 @@ def run(rep, tier, prop, names, tol, float_tol=None, rule="RND", max_angle=None,
         ths = thresholds(ff)
         shapes = meta["shape"]
         r1 = shapes[0][0]
+        for variant in variants:
+            vtag = "" if variant == 0 else " ray %d" % variant
+            _run_one(rep, rule, crule, fname, ff, g, nm, hess, shapes, ths, tol, float_tol, max_angle, near_pi, variant, vtag, dense, r1)
+    NE.U = 2.0 ** -53
+
+
+def _run_one(rep, rule, crule, fname, ff, g, nm, hess, shapes, ths, tol, float_tol, max_angle, near_pi, variant, vtag, dense, r1):
+    if True:
         try:
-            flips = continuity(rep, crule, fname, ff, g, nm, hess, shapes, ths, tol, max_angle.get(nm), near_pi)
+            flips = continuity(rep, crule, fname, ff, g, nm, hess, shapes, ths, tol, max_angle.get(nm), near_pi, variant, dense)
         except (poly.Unsupported, ir.Unresolved) as ex:
             rep.broke("%s: %s: %s" % (crule, fname, ex))
             flips = []
         if not flips:
-            rep.instance(crule, g.ctype, "%s: no case split along the ray" % nm, ok=True, nontrivial=False, sample={"witness": fname})
+            rep.instance(crule, g.ctype, "%s%s: no case split along the ray" % (nm, vtag), ok=True, nontrivial=False, sample={"witness": fname})
         for lo, hi, worst, tl_c in flips:
-            inst = "%s flip at %.6g" % (nm, lo)
+            inst = "%s%s flip at %.6g" % (nm, vtag, lo)
             ok = worst is None or worst[0] <= 2 * tl_c
             rep.instance(crule, g.ctype, inst, ok=ok, sample={"witness": fname, "angle_below": lo, "angle_above": hi, "jump_beyond_rounding_rel": worst[0] if worst else 0.0, "tolerance": tl_c})
             if not ok:
@@ -359,7 +373,7 @@ def run(rep, tier, prop, names, tol, float_tol=None, rule="RND", max_angle=None,
                     if scalar == "float" and math.pi - theta < wf:
                         tl_here = tf
                 try:
-                    sig, cells = evaluate(ff, g, theta, hess, shapes)
+                    sig, cells = evaluate(ff, g, theta, hess, shapes, variant)
                 except (poly.Unsupported, ir.Unresolved) as ex:
                     broke = "%s at theta = %.3g: %s" % (fname, theta, ex)
                     break
@@ -375,7 +389,7 @@ def run(rep, tier, prop, names, tol, float_tol=None, rule="RND", max_angle=None,
             if broke:
                 rep.broke("%s: %s" % (rule, broke))
                 break
-            inst = "%s %s" % (nm, scalar)
+            inst = "%s %s%s" % (nm, scalar, vtag)
             tl = worst[3]
             sample = {"witness": fname, "worst_relative_bound": worst[0], "at_angle": worst[1], "tolerance": tl, "thresholds": ths[:6]}
             if worst[0] >= 100 * tl:
@@ -451,3 +465,166 @@ def run_conversions(rep, rule="R5", budget=1e-12):
                                   "%s: at angle %.12g (pi - %.1e) the compiled expression for coefficient %d has a first-order rounding bound of %.2g (budget 1e-14 per operation, "
                                   "reported from %g): it is ill-conditioned there (e.g. a half-angle identity sqrt((1 +/- cos)/2) cancelling towards the half turn); an infinite bound "
                                   "is a division by exactly zero" % (meta["what"], worst[1], math.pi - abs(worst[1]), worst[2], worst[0], budget), None, None, detail={"witness": fname}))
+
+
+def run_tails(rep, rule="TT", rel_tol=1e-9):
+    """The Taylor-tail helpers of detail/trig.hpp (cos_n, sin_n: a transcendental function of the squared argument minus its leading Taylor terms), each as its own witness:
+    TT.path  on the path taken for arguments beyond every comparison constant (x^2 = 4 .. 1e8) the value is computed through a libm sine / cosine -- a path without one is a
+             polynomial or rational function of x^2 and cannot equal an oscillating function on an unbounded range ("any rotation norm");
+    TT.rnd   first-order rounding bound relative to the value stays below 100x rel_tol over x^2 = 1e-30 .. 1e8 incl. both sides of every comparison constant;
+    TT.cont  the value is continuous (2x rel_tol plus rounding) wherever the comparison outcomes change."""
+    import astlib as A
+    import irw
+    rep.rule(rule + ".path", "Taylor tails of detail/trig.hpp: the path taken for large arguments goes through a libm sine / cosine", minimum=6)
+    rep.rule(rule + ".rnd", "Taylor tails: first-order rounding bound relative to the value below 100x %g over x^2 = 1e-30 .. 1e8 incl. both sides of every switch" % rel_tol, minimum=6)
+    rep.rule(rule + ".cont", "Taylor tails: continuous at every change of the comparison outcomes", minimum=6)
+    names = set()
+    for filt in ("cos_", "sin_"):
+        for d in A.index(fe.ast_dump(filt)):
+            if d.kind in A.FUNCS and d.file and d.file.endswith("detail/trig.hpp") and A.body(d.node) is not None and len(A.params(d.node)) == 1:
+                names.add(d.qname.split("::")[-1].split("<")[0])
+    names = sorted(names)
+    if len(names) < 6:
+        rep.broke("%s: %d tail functions found in detail/trig.hpp (6 confirmed by hand)" % (rule, len(names)))
+    W = irw.IRW("rnd_tails", groups.PRELUDE + "#include <smooth/detail/trig.hpp>\n", chunk=8)
+    for nm in names:
+        W.add("tail_" + nm, "const double* p0, double* o1", "  o1[0] = smooth::detail::%s<double>(p0[0]);" % nm, what=nm)
+    facts = W.build()
+    rep.unit("%d tail witnesses" % len(W.wits))
+    NE.U = 2.0 ** -53
+
+    def ev_at(ff, x2):
+        ev = RndEval(ff, lambda p, off, ty: "x" if p == 0 else None, {"x": x2})
+        orig = ev._run_path
+
+        def run_path(dec, ev=ev, orig=orig):
+            ev._dec_proxy = dec
+            ev.sig = []
+            ev.calls = []
+            return orig(dec)
+        ev._run_path = run_path
+        st = ev.run()[0]["stores"]
+        return tuple(ev.sig), list(ev.calls), st.get((1, 0))
+    for fname, (ff, meta, mod) in sorted(facts.items()):
+        nm = meta["what"]
+        ths = thresholds(ff)
+        pts = {m * 10.0 ** k for k in range(-30, 9) for m in (1.0, 3.3)}
+        for c in ths:
+            pts.update({c * (1 - 1e-3), c * (1 - 1e-9), c * (1 + 1e-9), c * (1 + 1e-3), c * c, c * 1.5})
+        pts = sorted(p for p in pts if p > 0)
+        try:
+            res = [(x2,) + ev_at(ff, x2) for x2 in pts]
+            # TT.path
+            large = [r for r in res if r[0] >= 4.0 and all(r[0] > 1.5 * c for c in ths)]
+            bad = [r for r in large if not any(c in ("sin", "cos") for c in r[2])]
+            rep.instance(rule + ".path", "detail::" + nm, "large arguments", ok=not bad and bool(large), sample={"witness": fname, "arguments": len(large), "switch_constants": ths})
+            if bad or not large:
+                rep.violation(Finding(rule + ".path", "detail::" + nm, "large arguments",
+                                      "detail::%s: for x^2 = %g (beyond every comparison constant %s of the function) the value is computed without a libm sine / cosine, i.e. by a polynomial or "
+                                      "rational function of x^2 -- a truncated series is used where the closed form is needed; it cannot be accurate for every rotation norm" % (nm, bad[0][0] if bad else 0, ths),
+                                      None, None, detail={"witness": fname}))
+            # TT.rnd
+            worst = max(res, key=lambda r: (r[3].e / max(abs(r[3].v), 1e-300)) if r[3] is not None else INF)
+            rel = worst[3].e / max(abs(worst[3].v), 1e-300)
+            ok = rel < 100 * rel_tol
+            rep.instance(rule + ".rnd", "detail::" + nm, "conditioning", ok=ok, sample={"witness": fname, "worst_relative_bound": rel, "at_x2": worst[0]})
+            if not ok:
+                rep.violation(Finding(rule + ".rnd", "detail::" + nm, "conditioning", "detail::%s: at x^2 = %.6g the compiled formula has a first-order rounding bound of %.2g relative to its value %.3g "
+                                      "(reported from 100x %g): it cancels catastrophically there" % (nm, worst[0], rel, worst[3].v, rel_tol), None, None, detail={"witness": fname}))
+            # TT.cont
+            nflip = 0
+            for (xa, sa, _, va), (xb, sb, _, vb) in zip(res, res[1:]):
+                if sa == sb:
+                    continue
+                lo, hi, vlo, vhi = xa, xb, va, vb
+                for _ in range(80):
+                    mid = 0.5 * (lo + hi)
+                    if mid <= lo or mid >= hi:
+                        break
+                    sm, _, vm = ev_at(ff, mid)
+                    if sm == sa:
+                        lo, vlo = mid, vm
+                    else:
+                        hi, vhi = mid, vm
+                nflip += 1
+                jump = (abs(vlo.v - vhi.v) - vlo.e - vhi.e) / max(abs(vlo.v), 1e-300)
+                ok = jump <= 2 * rel_tol
+                rep.instance(rule + ".cont", "detail::" + nm, "flip at x2 = %.6g" % lo, ok=ok, sample={"witness": fname, "jump_relative": jump})
+                if not ok:
+                    rep.violation(Finding(rule + ".cont", "detail::" + nm, "flip at x2 = %.6g" % lo, "detail::%s: the two branches that meet at x^2 = %.12g give %.15g and %.15g: a relative jump of %.3g "
+                                          "beyond rounding (2 x %g allowed)" % (nm, lo, vlo.v, vhi.v, jump, rel_tol), None, None, detail={"witness": fname}))
+            if nflip == 0:
+                rep.instance(rule + ".cont", "detail::" + nm, "no case split", ok=True, nontrivial=False, sample={"witness": fname})
+        except (poly.Unsupported, ir.Unresolved) as ex:
+            rep.broke("%s: detail::%s: %s" % (rule, nm, ex))
+
+
+SPECIAL_SO2 = [(0.0, 1.0), (0.0, -1.0), (1.0, 0.0), (-1.0, 0.0), (0.6, 0.8), (-0.6, -0.8), (0.8, -0.6)]
+SPECIAL_SO3 = [(0.0, 0.0, 0.0, 1.0), (1.0, 0.0, 0.0, 0.0), (0.0, 1.0, 0.0, 0.0), (0.0, 0.0, 1.0, 0.0), (0.6, 0.0, 0.0, 0.8), (0.0, 0.6, 0.8, 0.0), (0.0, 0.0, 0.28, 0.96)]
+# (offset, size) of the rotation coefficients in coeffs(), and of the rotation coordinates in the tangent
+ROT_LAYOUT = {"SO2d": ((0, 2), (0, 1)), "SO3d": ((0, 4), (0, 3)), "SE2d": ((2, 2), (2, 1)), "SE3d": ((3, 4), (3, 3)), "Galileid": ((7, 4), (7, 3)), "SE_2_3d": ((6, 4), (6, 3))}
+
+
+def run_special_logs(rep, rule="RND.E", tol=1e-9):
+    """log at the exactly representable elements where it is singular or changes branch -- identity, half turns (about the axes and about a general axis), quarter turns, a generic
+    rational rotation -- with non-zero translation parts: the optimized IR of log(g) and of exp(log(g)) is interpreted in the (value, rounding bound) domain.  Every output is finite (no
+    division by exactly zero, no NaN), the rotation part of log(g) has norm at most pi, and exp(log(g)) returns the coefficients of g (up to the sign of the quaternion) within tol + bound."""
+    import irw
+    rep.rule(rule, "log(g) at exactly representable special elements (identity, half turns, quarter turns): finite, rotation norm <= pi, exp(log(g)) == g", minimum=30)
+    gs = [g for g in groups.catalogue("quick") if g.key in ROT_LAYOUT]
+    W = irw.IRW("rnd_logs", groups.PRELUDE, chunk=2)
+    for g in gs:
+        W.add("logs_%s" % g.key, "const double* p0, double* o1, double* o2",
+              "  using GT = %s;\n  smooth::Map<const GT> g(p0);\n  Eigen::Map<Eigen::Matrix<double, GT::Dof, 1>> m1(o1);\n  Eigen::Map<Eigen::Matrix<double, GT::RepSize, 1>> m2(o2);\n"
+              "  const typename GT::Tangent a = g.log();\n  m1 = a;\n  m2 = GT::exp(a).coeffs();" % g.ctype, g=g)
+    facts = W.build()
+    rep.unit("%d log witnesses" % len(W.wits))
+    NE.U = 2.0 ** -53
+    fill = [1.5, -2.0, 0.75, 3.0, -0.5, 1.25, 2.0]
+    for fname, (ff, meta, mod) in sorted(facts.items()):
+        g = meta["g"]
+        (ro, rn), (to, tn) = ROT_LAYOUT[g.key]
+        for sp in (SPECIAL_SO2 if rn == 2 else SPECIAL_SO3):
+            coeffs = [fill[i % len(fill)] for i in range(g.rep)]
+            coeffs[ro:ro + rn] = list(sp)
+            inst = "rotation coefficients %s" % (sp,)
+            try:
+                ev = RndEval(ff, lambda p, off, ty: ("c%d" % (off // 8)) if p == 0 else None, {"c%d" % i: coeffs[i] for i in range(g.rep)})
+                orig = ev._run_path
+
+                def run_path(dec, ev=ev, orig=orig):
+                    ev._dec_proxy = dec
+                    return orig(dec)
+                ev._run_path = run_path
+                st = ev.run()[0]["stores"]
+            except (poly.Unsupported, ir.Unresolved) as ex:
+                rep.broke("%s: %s at %s: %s" % (rule, g.ctype, inst, ex))
+                continue
+            lg = [st.get((1, 8 * k)) for k in range(g.dof)]
+            back = [st.get((2, 8 * k)) for k in range(g.rep)]
+            bad = None
+            if any(c is None for c in lg + back):
+                bad = "an output coefficient is not written"
+            elif any(c.e == INF or c.v != c.v or abs(c.v) == INF for c in lg):
+                k = next(i for i, c in enumerate(lg) if c.e == INF or c.v != c.v or abs(c.v) == INF)
+                bad = "coordinate %d of log(g) is not finite (value %r): a division by exactly zero / an invalid operation at this element" % (k, lg[k].v)
+            else:
+                nrm = math.sqrt(sum(lg[to + i].v ** 2 for i in range(tn)))
+                if nrm > math.pi * (1 + 1e-12) + sum(lg[to + i].e for i in range(tn)):
+                    bad = "the rotation part of log(g) has norm %.15g > pi" % nrm
+                elif any(c.e == INF or c.v != c.v for c in back):
+                    bad = "exp(log(g)) is not finite"
+                else:
+                    # the quaternion is determined up to sign
+                    sgn = 1.0
+                    if rn == 4 and sum(back[ro + i].v * coeffs[ro + i] for i in range(4)) < 0:
+                        sgn = -1.0
+                    for i in range(g.rep):
+                        want = coeffs[i] * (sgn if ro <= i < ro + rn else 1.0)
+                        scale = max(1.0, max(abs(x) for x in coeffs))
+                        if abs(back[i].v - want) > tol * scale + back[i].e:
+                            bad = "exp(log(g)) has coefficient %d = %.12g; g has %.12g (rounding bound %.2g)" % (i, back[i].v, want, back[i].e)
+                            break
+            rep.instance(rule, g.ctype, inst, ok=bad is None, sample={"witness": fname, "coefficients": coeffs})
+            if bad:
+                rep.violation(Finding(rule, g.ctype, inst, "%s with %s (coefficients %s): %s" % (g.ctype, inst, coeffs, bad), None, None, detail={"witness": fname}))
